@@ -29,6 +29,14 @@ func groups(a []byte) (g [8]uint16) {
 	return
 }
 
+func hex(gs []uint16) string {
+	p := make([]string, len(gs))
+	for i, x := range gs {
+		p[i] = fmt.Sprintf("%x", x)
+	}
+	return strings.Join(p, ":")
+}
+
 // FormatIPv6 is the canonical text form of RFC 5952 §4: lower-case hex, no leading zeros,
 // the longest run of two or more zero groups (the first one on a tie) replaced by "::".
 func FormatIPv6(a []byte) string {
@@ -48,13 +56,6 @@ func FormatIPv6(a []byte) string {
 		}
 		i = j
 	}
-	hex := func(gs []uint16) string {
-		p := make([]string, len(gs))
-		for i, x := range gs {
-			p[i] = fmt.Sprintf("%x", x)
-		}
-		return strings.Join(p, ":")
-	}
 	if bestAt < 0 {
 		return hex(g[:])
 	}
@@ -63,11 +64,37 @@ func FormatIPv6(a []byte) string {
 
 // IPv6 text variants that RFC 4291 §2.2 allows but RFC 5952 does not recommend; valid inputs
 // of a text→binary conversion. style: 0 full lower (no compression, 4 digits), 1 full upper,
-// 2 no compression without leading zeros, 3 canonical but upper case.
+// 2 no compression without leading zeros, 3 canonical but upper case, 4 "::" in place of the FIRST run of zero
+// groups, 5 in place of the LAST run — "::" may stand for one or more groups (RFC 4291 §2.2 item 2), so a single
+// zero group at either end gives a text with eight colons — 6 the last 32 bits in dotted-decimal (item 3).
 func FormatIPv6Variant(a []byte, style int) string {
 	g := groups(a)
 	p := make([]string, 8)
 	switch style {
+	case 4, 5:
+		from, n := -1, 0
+		for i := 0; i < 8; i++ {
+			if g[i] != 0 {
+				continue
+			}
+			j := i
+			for j < 8 && g[j] == 0 {
+				j++
+			}
+			if from < 0 || style == 5 {
+				from, n = i, j-i
+			}
+			i = j
+		}
+		if from < 0 {
+			return FormatIPv6Variant(a, 2)
+		}
+		return hex(g[:from]) + "::" + hex(g[from+n:])
+	case 6:
+		for i := 0; i < 6; i++ {
+			p[i] = fmt.Sprintf("%x", g[i])
+		}
+		return strings.Join(p[:6], ":") + ":" + FormatIPv4(a[12:16])
 	case 0:
 		for i := range p {
 			p[i] = fmt.Sprintf("%04x", g[i])
